@@ -1,13 +1,34 @@
-// gotrans translates the loop-free decision functions of a Go package into Lean 4 definitions.
+// gotrans translates the decision functions of a Go package into Lean 4 definitions.
 //
 // A function is translated when its body consists of local bindings (`x := e`), `if c { … return e }`
-// statements (with or without else) and a final `return e`, over expressions built from
-// parameters, field selections and indexings of them ("leaves"), literals, `len`, comparisons,
-// arithmetic (+ - *) and boolean connectives.  Every leaf becomes a parameter of the Lean
-// definition, typed by the declared type of its last field (int → Int, string → Str, bool → Bool),
-// in order of first appearance; the body becomes nested `if … then … else`.  Everything else in
-// the package is skipped (and listed in a comment).  The output is regenerated on every run; the
-// hand-written tie theorems (Lemmas/Translated.lean) state that the model's definitions ARE these.
+// statements (with or without else), SEARCH LOOPS and a final `return e`, over expressions built
+// from parameters, field selections and indexings of them ("leaves"), literals, `len`,
+// comparisons, arithmetic (+ - *), boolean connectives and CALLS of leaves / whitelisted external
+// functions.  Every leaf becomes a parameter of the Lean definition, typed by the declared type of
+// its last field (int → Int, string → Str, bool → Bool, []string → List Str, func(string) bool →
+// Str → Bool), in order of first appearance; the body becomes nested `if … then … else`.
+//
+//   - A search loop is `for _, x := range <leaf of type []string> { S }` followed by the rest of the
+//     block, where S is a chain of local bindings and else-less `if c { … return v }` statements:
+//     "return v at the first element that satisfies c, otherwise go on".  It becomes
+//     `search xs (fun x => if c₁ then some v₁ else if c₂ then some v₂ else none) rest` over the
+//     helper `search` emitted at the top of the output.  Index variables, break / continue /
+//     goto, assignments (other than `:=` of a fresh name), calls as statements and any other
+//     statement in the body make the function untranslatable.  The loop variable is a bound
+//     variable named by nesting depth (`x'1`, `x'2`, …): local names never reach the output.
+//   - A call `pkg.F(args)` of a whitelisted function of an imported package (table `externals`)
+//     becomes an application of a function PARAMETER `pkg_F` of the declared signature: such
+//     functions are never interpreted, the tie theorems quantify over them or instantiate them.
+//   - A call through a function-typed struct field or parameter (`c.AllowedDomainFunc(e)`) becomes an
+//     application of a function leaf (`c_AllowedDomainFunc : Str → Bool`); `c.AllowedDomainFunc != nil`
+//     is the Bool leaf `c_AllowedDomainFunc_isNil` like every other nil test.  (User code is data:
+//     a function of its arguments, as in the hand-written models.)
+//   - `len(x)` of a string or []string leaf (or of any translated Str expression) is the length of
+//     the Lean list; of anything else an Int leaf `len_x`.
+//
+// Everything else in the package is skipped (`-why` lists the reasons): anything the tool does not
+// fully understand is rejected, never guessed.  The output is regenerated on every run; the
+// hand-written tie theorems (Lemmas/Tie*.lean) state that the model's definitions ARE these.
 package main
 
 import (
@@ -35,16 +56,107 @@ type untranslatable struct{ why string }
 
 func fail(format string, a ...interface{}) { panic(untranslatable{fmt.Sprintf(format, a...)}) }
 
-// fieldTypes: field name -> set of declared types over all structs of the package
-var fieldTypes = map[string]map[string]bool{}
+// fieldTypes: field name -> declared types (text -> type expression) over all structs of the package
+var fieldTypes = map[string]map[string]ast.Expr{}
+
+// structFields: struct type name -> field name -> declared type
+var structFields = map[string]map[string]ast.Expr{}
+
+// methodNames: every method name declared in the package (a selector call `x.m(…)` whose name is
+// also a method somewhere is never read as a call through a function-typed field)
+var methodNames = map[string]bool{}
+
+// externals: the functions of other packages a translated function may call, by import path and
+// name, with the Lean type of the function PARAMETER that stands for them.  They are never
+// interpreted.
+var externals = map[string]string{
+	"strings.ToLower":    "Str → Str",
+	"strings.ToUpper":    "Str → Str",
+	"strings.TrimSpace":  "Str → Str",
+	"strings.Trim":       "Str → Str → Str",
+	"strings.TrimLeft":   "Str → Str → Str",
+	"strings.TrimRight":  "Str → Str → Str",
+	"strings.TrimPrefix": "Str → Str → Str",
+	"strings.TrimSuffix": "Str → Str → Str",
+	"strings.HasPrefix":  "Str → Str → Bool",
+	"strings.HasSuffix":  "Str → Str → Bool",
+	"strings.Contains":   "Str → Str → Bool",
+	"strings.EqualFold":  "Str → Str → Bool",
+}
+
+// reserved: names a parameter of a generated definition must not have (Lean keywords and the
+// names the generated file itself defines)
+var reserved = map[string]bool{"search": true, "translatedNames": true, "sortCalls": true,
+	"at": true, "from": true, "fun": true, "in": true, "end": true, "do": true, "then": true, "else": true, "if": true,
+	"let": true, "have": true, "show": true, "open": true, "by": true, "with": true, "match": true, "def": true,
+	"theorem": true, "namespace": true, "section": true, "where": true, "deriving": true, "instance": true,
+	"structure": true, "class": true, "import": true, "true": true, "false": true, "some": true, "none": true,
+	"decide": true, "Type": true, "Prop": true, "Sort": true, "forall": true, "exists": true, "for": true,
+	"return": true, "mut": true, "try": true, "catch": true, "finally": true, "unless": true, "using": true,
+	"local": true, "private": true, "protected": true, "variable": true, "universe": true, "example": true,
+	"abbrev": true, "axiom": true, "inductive": true, "mutual": true, "extends": true, "macro": true,
+	"syntax": true, "notation": true, "infix": true, "infixl": true, "infixr": true, "prefix": true,
+	"postfix": true, "set_option": true, "attribute": true, "export": true, "nomatch": true, "nofun": true,
+	"calc": true, "suffices": true, "obtain": true, "this": true, "sorry": true, "break": true, "continue": true}
 
 type leaf struct{ name, typ, text string }
 
 type tr struct {
-	params map[string]string // parameter / receiver name -> Go type text
-	local  map[string]ast.Expr
-	leaves []leaf
-	byText map[string]int
+	params     map[string]string   // parameter / receiver name -> Go type text
+	paramTypes map[string]ast.Expr // parameter name -> declared type (not for the receiver)
+	imports    map[string]string   // file-scope package name -> import path
+	local      map[string]ast.Expr
+	bound      map[string]string // loop variable (Go name) -> Lean name
+	leaves     []leaf
+	byText     map[string]int
+}
+
+// leanType: the Lean type of a declared Go type, "" when outside the subset
+func leanType(e ast.Expr) string {
+	switch x := e.(type) {
+	case *ast.Ident:
+		return basic(x.Name)
+	case *ast.ArrayType:
+		if id, ok := x.Elt.(*ast.Ident); ok && x.Len == nil && id.Name == "string" {
+			return "List Str"
+		}
+	case *ast.FuncType:
+		if x.TypeParams != nil || x.Params == nil || len(x.Params.List) == 0 {
+			return ""
+		}
+		var parts []string
+		for _, p := range x.Params.List {
+			id, ok := p.Type.(*ast.Ident)
+			if !ok || basic(id.Name) == "" {
+				return ""
+			}
+			n := len(p.Names)
+			if n == 0 {
+				n = 1
+			}
+			for i := 0; i < n; i++ {
+				parts = append(parts, basic(id.Name))
+			}
+		}
+		if x.Results == nil || len(x.Results.List) != 1 || len(x.Results.List[0].Names) > 1 {
+			return ""
+		}
+		id, ok := x.Results.List[0].Type.(*ast.Ident)
+		if !ok || basic(id.Name) == "" {
+			return ""
+		}
+		return strings.Join(append(parts, basic(id.Name)), " → ")
+	}
+	return ""
+}
+
+// funcParts splits a function type into argument types and result type
+func funcParts(ty string) ([]string, string, bool) {
+	p := strings.Split(ty, " → ")
+	if len(p) < 2 {
+		return nil, "", false
+	}
+	return p[:len(p)-1], p[len(p)-1], true
 }
 
 func basic(t string) string {
@@ -59,6 +171,15 @@ func basic(t string) string {
 		return "Char"
 	}
 	return ""
+}
+
+func ascii(s string) bool {
+	for i := 0; i < len(s); i++ {
+		if s[i] >= 0x80 || s[i] < 0x20 {
+			return false
+		}
+	}
+	return true
 }
 
 func sanitize(s string) string {
@@ -78,6 +199,9 @@ func sanitize(s string) string {
 func (t *tr) subst(e ast.Expr) ast.Expr {
 	switch x := e.(type) {
 	case *ast.Ident:
+		if _, ok := t.bound[x.Name]; ok {
+			return x
+		}
 		if d, ok := t.local[x.Name]; ok {
 			return t.subst(d)
 		}
@@ -111,37 +235,58 @@ func (t *tr) rooted(e ast.Expr) bool {
 	return false
 }
 
-func (t *tr) leafOf(e ast.Expr, forceType string) (string, string) {
-	e = t.subst(e)
-	if !t.rooted(e) {
-		fail("expression not rooted at a parameter: %s", src(e))
-	}
-	text := strings.Join(strings.Fields(src(e)), "")
-	typ := forceType
-	if typ == "" {
-		switch x := e.(type) {
-		case *ast.Ident:
-			typ = basic(t.params[x.Name])
-		case *ast.SelectorExpr:
-			ts := fieldTypes[x.Sel.Name]
-			if len(ts) != 1 {
-				fail("field %s has %d declared types", x.Sel.Name, len(ts))
-			}
-			for k := range ts {
-				typ = basic(strings.TrimPrefix(k, "*"))
+// leafType resolves the Lean type of a (substituted, rooted) leaf expression; "" with a reason
+// when it has none in the subset.  A field selected directly from a parameter or the receiver of a
+// struct type of the package is typed by that struct's declaration; any other field by its name,
+// provided every struct of the package that has a field of this name declares the same type.
+func (t *tr) leafType(e ast.Expr) (string, string) {
+	switch x := e.(type) {
+	case *ast.Ident:
+		if pt, ok := t.paramTypes[x.Name]; ok {
+			return leanType(pt), ""
+		}
+		return basic(t.params[x.Name]), ""
+	case *ast.SelectorExpr:
+		var decl ast.Expr
+		if id, ok := x.X.(*ast.Ident); ok {
+			if fs, ok := structFields[strings.TrimPrefix(t.params[id.Name], "*")]; ok {
+				decl = fs[x.Sel.Name]
+				if decl == nil {
+					return "", fmt.Sprintf("%s is not a field of %s", x.Sel.Name, t.params[id.Name])
+				}
 			}
 		}
+		if decl == nil {
+			ts := fieldTypes[x.Sel.Name]
+			if len(ts) != 1 {
+				return "", fmt.Sprintf("field %s has %d declared types", x.Sel.Name, len(ts))
+			}
+			for _, v := range ts {
+				decl = v
+			}
+		}
+		if st, ok := decl.(*ast.StarExpr); ok {
+			if id, ok := st.X.(*ast.Ident); ok {
+				return basic(id.Name), ""
+			}
+			return "", ""
+		}
+		typ := leanType(decl)
+		if _, _, isFunc := funcParts(typ); isFunc && methodNames[x.Sel.Name] {
+			return "", fmt.Sprintf("%s is also a method name", x.Sel.Name)
+		}
+		return typ, ""
 	}
-	if typ == "" {
-		fail("no basic type for %s", text)
-	}
+	return "", ""
+}
+
+func (t *tr) addLeaf(name, typ, text string) string {
 	key := text + ":" + typ
 	if i, ok := t.byText[key]; ok {
-		return t.leaves[i].name, typ
+		return t.leaves[i].name
 	}
-	name := sanitize(text)
-	if forceType == "Int" && !strings.HasPrefix(name, "len_") && typ == "Int" {
-		// len(x)
+	if reserved[name] {
+		name += "_"
 	}
 	for _, l := range t.leaves {
 		if l.name == name {
@@ -150,7 +295,58 @@ func (t *tr) leafOf(e ast.Expr, forceType string) (string, string) {
 	}
 	t.byText[key] = len(t.leaves)
 	t.leaves = append(t.leaves, leaf{name, typ, text})
-	return name, typ
+	return name
+}
+
+func (t *tr) leafOf(e ast.Expr) (string, string) {
+	e = t.subst(e)
+	if !t.rooted(e) {
+		fail("expression not rooted at a parameter: %s", src(e))
+	}
+	text := strings.Join(strings.Fields(src(e)), "")
+	typ, why := t.leafType(e)
+	if why != "" {
+		fail("%s", why)
+	}
+	if typ == "" {
+		fail("no basic type for %s", text)
+	}
+	return t.addLeaf(sanitize(text), typ, text), typ
+}
+
+// isPackage: `name` denotes an imported package here (not shadowed by a parameter, local or loop variable)
+func (t *tr) isPackage(name string) (string, bool) {
+	if _, ok := t.params[name]; ok {
+		return "", false
+	}
+	if _, ok := t.local[name]; ok {
+		return "", false
+	}
+	if _, ok := t.bound[name]; ok {
+		return "", false
+	}
+	p, ok := t.imports[name]
+	return p, ok
+}
+
+// apply translates the arguments of a call of `fn : ty` and checks them against its type
+func (t *tr) apply(fn, ty string, call *ast.CallExpr) (string, string) {
+	args, res, ok := funcParts(ty)
+	if !ok {
+		fail("call of %s of type %s", fn, ty)
+	}
+	if call.Ellipsis != token.NoPos || len(call.Args) != len(args) {
+		fail("call of %s with %d arguments", fn, len(call.Args))
+	}
+	out := "(" + fn
+	for i, a := range call.Args {
+		s, ta := t.expr(a)
+		if ta != args[i] {
+			fail("argument %d of %s has type %s, not %s", i+1, fn, ta, args[i])
+		}
+		out += " " + s
+	}
+	return out + ")", res
 }
 
 // expr translates to a Lean term and returns its type.
@@ -164,12 +360,14 @@ func (t *tr) expr(e ast.Expr) (string, string) {
 		case token.INT:
 			return "(" + x.Value + " : Int)", "Int"
 		case token.STRING:
-			if strings.HasPrefix(x.Value, "`") || strings.Contains(x.Value, "\\") {
+			// one Char per Go byte: ASCII only; the escapes Go and Lean read alike
+			esc := strings.NewReplacer(`\\`, "", `\t`, "", `\n`, "", `\r`, "", `\"`, "").Replace(x.Value)
+			if strings.HasPrefix(x.Value, "`") || strings.Contains(esc, "\\") || !ascii(x.Value) {
 				fail("string literal with escapes")
 			}
 			return x.Value + ".toList", "Str"
 		case token.CHAR:
-			if strings.Contains(x.Value, "\\") && x.Value != "'\\t'" && x.Value != "'\\n'" {
+			if strings.Contains(x.Value, "\\") && x.Value != "'\\t'" && x.Value != "'\\n'" || !ascii(x.Value) {
 				fail("char literal with escapes")
 			}
 			return x.Value, "Char"
@@ -180,10 +378,13 @@ func (t *tr) expr(e ast.Expr) (string, string) {
 		case "true", "false":
 			return x.Name, "Bool"
 		}
+		if n, ok := t.bound[x.Name]; ok {
+			return n, "Str"
+		}
 		if _, ok := t.local[x.Name]; ok {
 			return t.expr(t.local[x.Name])
 		}
-		n, ty := t.leafOf(x, "")
+		n, ty := t.leafOf(x)
 		return n, ty
 	case *ast.SelectorExpr:
 		if id, ok := x.X.(*ast.Ident); ok && id.Name == "http" {
@@ -191,26 +392,57 @@ func (t *tr) expr(e ast.Expr) (string, string) {
 				return fmt.Sprintf("(%d : Int)", v), "Int"
 			}
 		}
-		n, ty := t.leafOf(x, "")
+		n, ty := t.leafOf(x)
 		return n, ty
 	case *ast.IndexExpr:
-		n, ty := t.leafOf(x, "")
+		n, ty := t.leafOf(x)
 		return n, ty
 	case *ast.CallExpr:
 		if id, ok := x.Fun.(*ast.Ident); ok && id.Name == "len" && len(x.Args) == 1 {
+			if _, shadowed := t.params["len"]; shadowed || t.local["len"] != nil || t.bound["len"] != "" {
+				fail("len is shadowed")
+			}
 			a := t.subst(x.Args[0])
 			if !t.rooted(a) {
-				fail("len of %s", src(a))
+				// the length of a translated string / string list expression
+				s, ty := t.expr(x.Args[0])
+				if ty != "Str" && ty != "List Str" {
+					fail("len of %s", src(a))
+				}
+				return "((List.length " + s + " : Nat) : Int)", "Int"
+			}
+			if ty, _ := t.leafType(a); ty == "Str" || ty == "List Str" {
+				n, _ := t.leafOf(a)
+				return "((List.length " + n + " : Nat) : Int)", "Int"
 			}
 			text := "len(" + strings.Join(strings.Fields(src(a)), "") + ")"
-			key := text + ":Int"
-			if i, ok := t.byText[key]; ok {
-				return t.leaves[i].name, "Int"
+			return t.addLeaf("len_"+sanitize(src(a)), "Int", text), "Int"
+		}
+		// a whitelisted function of an imported package: a function parameter
+		if sel, ok := x.Fun.(*ast.SelectorExpr); ok {
+			if id, ok := sel.X.(*ast.Ident); ok {
+				if path, ok := t.isPackage(id.Name); ok {
+					full := path + "." + sel.Sel.Name
+					ty, ok := externals[full]
+					if !ok {
+						fail("call %s", full)
+					}
+					fn := t.addLeaf(sanitize(full), ty, full)
+					return t.apply(fn, ty, x)
+				}
 			}
-			name := "len_" + sanitize(src(a))
-			t.byText[key] = len(t.leaves)
-			t.leaves = append(t.leaves, leaf{name, "Int", text})
-			return name, "Int"
+		}
+		// a call through a function-typed field or parameter: a function leaf
+		switch x.Fun.(type) {
+		case *ast.Ident, *ast.SelectorExpr:
+			if f := t.subst(x.Fun); t.rooted(f) {
+				if ty, _ := t.leafType(f); ty != "" {
+					if _, _, isFunc := funcParts(ty); isFunc {
+						fn, _ := t.leafOf(f)
+						return t.apply(fn, ty, x)
+					}
+				}
+			}
 		}
 		fail("call %s", src(x.Fun))
 	case *ast.UnaryExpr:
@@ -320,6 +552,9 @@ func (t *tr) stmts(l []ast.Stmt, ind string) (string, string) {
 		if _, dup := t.local[id.Name]; dup {
 			fail("%s assigned twice", id.Name)
 		}
+		if _, dup := t.bound[id.Name]; dup {
+			fail("%s assigned twice", id.Name)
+		}
 		t.local[id.Name] = s.Rhs[0]
 		return t.stmts(l[1:], ind)
 	case *ast.IfStmt:
@@ -352,9 +587,100 @@ func (t *tr) stmts(l []ast.Stmt, ind string) (string, string) {
 		if tt != te {
 			fail("branches of types %s and %s", tt, te)
 		}
+		if strings.Contains(th, "\n") {
+			return "if " + c + " then\n" + ind + "  " + th + "\n" + ind + "else " + el, tt
+		}
 		return "if " + c + " then " + th + "\n" + ind + "else " + el, tt
+	case *ast.RangeStmt:
+		// search loop: `for _, x := range xs { if c { … return v } … }` followed by the rest
+		if s.Tok != token.DEFINE || s.Key == nil || s.Value == nil {
+			fail("range loop that is not `for _, x := range`")
+		}
+		if k, ok := s.Key.(*ast.Ident); !ok || k.Name != "_" {
+			fail("range loop with an index variable")
+		}
+		v, ok := s.Value.(*ast.Ident)
+		if !ok || v.Name == "_" {
+			fail("range loop without an element variable")
+		}
+		xs, txs := t.leafOf(s.X)
+		if txs != "List Str" {
+			fail("range over %s of type %s", src(s.X), txs)
+		}
+		_, isParam := t.params[v.Name]
+		_, isLocal := t.local[v.Name]
+		_, isBound := t.bound[v.Name]
+		_, isImport := t.imports[v.Name]
+		if isParam || isLocal || isBound || isImport || v.Name == "len" || v.Name == "nil" || v.Name == "true" || v.Name == "false" {
+			fail("loop variable %s shadows another name", v.Name)
+		}
+		saved := map[string]ast.Expr{}
+		for k, e := range t.local {
+			saved[k] = e
+		}
+		lean := fmt.Sprintf("x'%d", len(t.bound)+1)
+		t.bound[v.Name] = lean
+		body, tb := t.loopBody(s.Body.List, ind+"    ")
+		delete(t.bound, v.Name)
+		t.local = saved
+		rest, tr := t.stmts(l[1:], ind+"  ")
+		if tb != "" && tb != tr {
+			fail("loop returns %s, the rest %s", tb, tr)
+		}
+		return "search " + xs + " (fun (" + lean + " : Str) =>\n" + ind + "    " + body + ")\n" + ind + "  (" + rest + ")", tr
 	}
 	fail("statement %T", l[0])
+	return "", ""
+}
+
+// loopBody translates the body of a search loop into a term of type `Option β`: local bindings
+// and else-less `if c { … return v }` statements (`some v` at the first that fires), `none` at the
+// end of the body (go on with the next element).  Returns the type β ("" when nothing returns).
+func (t *tr) loopBody(l []ast.Stmt, ind string) (string, string) {
+	if len(l) == 0 {
+		return "none", ""
+	}
+	switch s := l[0].(type) {
+	case *ast.AssignStmt:
+		if s.Tok != token.DEFINE || len(s.Lhs) != 1 || len(s.Rhs) != 1 {
+			fail("assignment %s in a loop", src(s))
+		}
+		id, ok := s.Lhs[0].(*ast.Ident)
+		if !ok {
+			fail("assignment target")
+		}
+		_, isParam := t.params[id.Name]
+		_, isLocal := t.local[id.Name]
+		_, isBound := t.bound[id.Name]
+		if isParam || isLocal || isBound {
+			fail("%s assigned twice", id.Name)
+		}
+		t.local[id.Name] = s.Rhs[0]
+		return t.loopBody(l[1:], ind)
+	case *ast.IfStmt:
+		if s.Init != nil {
+			fail("if with init")
+		}
+		if s.Else != nil {
+			fail("if/else in a loop body")
+		}
+		c, tc := t.expr(s.Cond)
+		if tc != "Bool" {
+			fail("condition of type %s", tc)
+		}
+		saved := map[string]ast.Expr{}
+		for k, v := range t.local {
+			saved[k] = v
+		}
+		th, tt := t.stmts(s.Body.List, ind+"  ")
+		t.local = saved
+		el, te := t.loopBody(l[1:], ind)
+		if te != "" && te != tt {
+			fail("loop returns %s and %s", tt, te)
+		}
+		return "if " + c + " then some (" + th + ")\n" + ind + "else " + el, tt
+	}
+	fail("statement %T in a loop body", l[0])
 	return "", ""
 }
 
@@ -364,7 +690,26 @@ var httpStatus = map[string]int{"StatusOK": 200, "StatusCreated": 201, "StatusAc
 
 type result struct{ name, lean, doc string }
 
-func translate(fd *ast.FuncDecl, file string) (res *result, why string) {
+// the one generic helper of the generated file: a search loop
+const searchHelper = `/-- the search loop ` + "`for _, x := range xs { if c₁ { return v₁ } … }; rest`" + `: the value returned at the
+    first element at which the body returns (` + "`f x = some v`" + `), the rest of the block when the loop
+    runs to its end -/
+def search {α β : Type} : List α → (α → Option β) → β → β
+  | [], _, rest => rest
+  | x :: xs, f, rest =>
+    match f x with
+    | some v => v
+    | none => search xs f rest
+
+theorem search_eq_findSome? {α β : Type} (xs : List α) (f : α → Option β) (rest : β) :
+    search xs f rest = (match xs.findSome? f with | some v => v | none => rest) := by
+  induction xs with
+  | nil => rfl
+  | cons x xs ih => cases h : f x <;> simp [search, h, ih]
+
+`
+
+func translate(fd *ast.FuncDecl, file string, imports map[string]string) (res *result, why string) {
 	defer func() {
 		if p := recover(); p != nil {
 			u, ok := p.(untranslatable)
@@ -374,8 +719,15 @@ func translate(fd *ast.FuncDecl, file string) (res *result, why string) {
 			res, why = nil, u.why
 		}
 	}()
-	t := &tr{params: map[string]string{}, local: map[string]ast.Expr{}, byText: map[string]int{}}
+	t := &tr{params: map[string]string{}, paramTypes: map[string]ast.Expr{}, imports: imports,
+		local: map[string]ast.Expr{}, bound: map[string]string{}, byText: map[string]int{}}
 	name := fd.Name.Name
+	if reserved[name] && fd.Recv == nil {
+		fail("name reserved by the generated file")
+	}
+	if fd.Type.TypeParams != nil {
+		fail("generic function")
+	}
 	if fd.Recv != nil && len(fd.Recv.List) > 0 {
 		rt := strings.TrimPrefix(src(fd.Recv.List[0].Type), "*")
 		name = rt + "_" + name
@@ -386,6 +738,7 @@ func translate(fd *ast.FuncDecl, file string) (res *result, why string) {
 	for _, p := range fd.Type.Params.List {
 		for _, n := range p.Names {
 			t.params[n.Name] = src(p.Type)
+			t.paramTypes[n.Name] = p.Type
 		}
 	}
 	if fd.Type.Results == nil || len(fd.Type.Results.List) != 1 || len(fd.Type.Results.List[0].Names) > 0 {
@@ -418,15 +771,21 @@ func translate(fd *ast.FuncDecl, file string) (res *result, why string) {
 }
 
 func main() {
-	if len(os.Args) != 3 {
-		fmt.Fprintln(os.Stderr, "usage: gotrans <repo dir> <out.lean>")
+	args := os.Args[1:]
+	why := os.Getenv("GOTRANS_VERBOSE") != ""
+	if len(args) > 0 && (args[0] == "-why" || args[0] == "-v") {
+		why, args = true, args[1:]
+	}
+	if len(args) != 2 {
+		fmt.Fprintln(os.Stderr, "usage: gotrans [-why] <repo dir> <out.lean>\n  -why  list the functions outside the translated subset with the reason, and the translated ones")
 		os.Exit(2)
 	}
-	dir, out := os.Args[1], os.Args[2]
+	dir, out := args[0], args[1]
 	files, _ := filepath.Glob(filepath.Join(dir, "*.go"))
 	sort.Strings(files)
 	var parsed []*ast.File
 	var names []string
+	var imports []map[string]string
 	for _, f := range files {
 		if strings.HasSuffix(f, "_test.go") {
 			continue
@@ -438,7 +797,20 @@ func main() {
 		}
 		parsed = append(parsed, af)
 		names = append(names, f)
+		// file-scope package names: `import "strings"` is `strings`; renamed, dot and blank imports
+		// are not resolved (calls through them stay untranslatable)
+		im := map[string]string{}
+		for _, is := range af.Imports {
+			path := strings.Trim(is.Path.Value, "\"")
+			if is.Name == nil && !strings.Contains(path, "/") && !strings.Contains(path, ".") {
+				im[path] = path
+			}
+		}
+		imports = append(imports, im)
 		for _, d := range af.Decls {
+			if fd, ok := d.(*ast.FuncDecl); ok && fd.Recv != nil {
+				methodNames[fd.Name.Name] = true
+			}
 			gd, ok := d.(*ast.GenDecl)
 			if !ok {
 				continue
@@ -452,12 +824,24 @@ func main() {
 				if !ok {
 					continue
 				}
+				if ts.TypeParams == nil {
+					structFields[ts.Name.Name] = map[string]ast.Expr{}
+				}
 				for _, fl := range st.Fields.List {
 					for _, n := range fl.Names {
 						if fieldTypes[n.Name] == nil {
-							fieldTypes[n.Name] = map[string]bool{}
+							fieldTypes[n.Name] = map[string]ast.Expr{}
 						}
-						fieldTypes[n.Name][src(fl.Type)] = true
+						fieldTypes[n.Name][src(fl.Type)] = fl.Type
+						if structFields[ts.Name.Name] != nil {
+							structFields[ts.Name.Name][n.Name] = fl.Type
+						}
+					}
+				}
+				for _, fl := range st.Fields.List {
+					if len(fl.Names) == 0 {
+						// an embedded field: its promoted fields are not resolved through this struct
+						delete(structFields, ts.Name.Name)
 					}
 				}
 			}
@@ -495,7 +879,7 @@ func main() {
 			if !ok || fd.Body == nil {
 				continue
 			}
-			r, why := translate(fd, names[i])
+			r, why := translate(fd, names[i], imports[i])
 			if r != nil {
 				done = append(done, r)
 			} else {
@@ -512,6 +896,7 @@ func main() {
 	b.WriteString("/- GENERATED by tools/gotrans from the go-restful sources. Do not edit: regenerated on every run.\n")
 	b.WriteString("   The loop-free decision functions of the package, translated statement by statement. -/\n")
 	b.WriteString("import Restful.Go.Str\nnamespace Restful.Translated\nopen Restful\n\n")
+	b.WriteString(searchHelper)
 	var ns []string
 	for _, r := range done {
 		b.WriteString(r.lean)
@@ -533,9 +918,13 @@ func main() {
 		fmt.Fprintln(os.Stderr, err)
 		os.Exit(1)
 	}
-	if os.Getenv("GOTRANS_VERBOSE") != "" {
+	if why {
 		for _, s := range skipped {
 			fmt.Fprintln(os.Stderr, "skipped", s)
 		}
+		for _, r := range done {
+			fmt.Fprintln(os.Stderr, "translated", r.name)
+		}
+		fmt.Fprintf(os.Stderr, "%d functions translated, %d outside the translated subset\n", len(done), len(skipped))
 	}
 }
